@@ -1,12 +1,13 @@
 #!/bin/bash
 # usage: try_patch.sh <patch.diff> <Cxx> [Cyy...]  -- apply patch to /repo, run the checks, undo
+# (evidence of these runs goes to a scratch directory: /verif/evidence must only ever hold runs on the unchanged tree)
 set -u
 P="$1"; shift
 cd /repo || exit 2
 if ! git diff --quiet; then echo "/repo has uncommitted changes"; exit 2; fi
 git apply "$P" || { echo "patch does not apply"; exit 2; }
 for c in "$@"; do
-  /verif/bin/wfcheck "$c" 2>&1 | grep -E "^(VIOLATION|KNOWN|BROKEN|\[C|---|    )" | cut -c1-260 | head -${LINES_MAX:-30}
+  WF_EVIDENCE_DIR=${WF_EVIDENCE_DIR:-/tmp/wf_try_evidence} /verif/bin/wfcheck "$c" 2>&1 | grep -E "^(VIOLATION|KNOWN|BROKEN|\[C|---|    )" | cut -c1-260 | head -${LINES_MAX:-30}
   echo "   => exit ${PIPESTATUS[0]}"
 done
 git -C /repo checkout -- . 
